@@ -2,8 +2,10 @@
    The models (ArrayBucketModel.v, MultiMapModel.v, WrapperModel.v) are hand-written executable Gallina mirroring
    HashMultiMap.h, details/ArrayBucket.h and stdish/unordered_multimap.h; their extracted OCaml is run against the
    real C++ on every check (see prop.py). *)
-From Coq Require Import ZArith List Permutation.
-From C08 Require Import ArrayBucketModel MultiMapModel WrapperModel Examples.
+From Coq Require Import ZArith List Bool Permutation.
+From MomoCommon Require Import GenPrelude.
+From C08 Require Gen_GrowCapacity Gen_ArrayBucket Gen_ArrayBucket_cnt Gen_ArrayBucket_s.
+From C08 Require Import ArrayBucketModel GenRefine MultiMapModel WrapperModel Examples.
 Import ListNotations.
 Local Open Scope Z_scope.
 
@@ -299,3 +301,102 @@ Theorem C08_nonvacuous_failures :
   remove_back_f (RHeap 16 4) [true] = (RHeap 16 3, []) /\ remove_back_f (RHeap 16 4) [false] = (RHeap 8 3, []).
 Proof. exact ex_failures. Qed.
 Print Assumptions C08_nonvacuous_failures.
+
+(* ------------------------------------------------------------------ round 4: generated kernels (cxx2coq, regenerated on every run) *)
+(* the REAL ArraySettings<>::GrowCapacity (translated from Array.h) equals the hand model's grow_capacity for growCause =
+   add, linear = false, either growOnReserve, as long as size_t does not overflow (capacities <= 2^62); its
+   MOMO_ASSERT(capacity < minNewCapacity) holds *)
+Theorem C08_gen_grow_capacity_refines :
+  forall (gor : bool) (cap mn : Z), 0 <= cap < mn -> mn <= 2 ^ 62 ->
+  Gen_GrowCapacity.GrowCapacity gor cap mn 0 false = Ok (grow_capacity cap mn).
+Proof. exact gen_grow_capacity_refines. Qed.
+Print Assumptions C08_gen_grow_capacity_refines.
+
+(* ... and the generated function itself returns a capacity that holds the requested count and is larger than before *)
+Theorem C08_gen_grow_capacity_spec :
+  forall (gor : bool) (cap mn : Z), 0 <= cap < mn -> mn <= 2 ^ 62 ->
+  exists c, Gen_GrowCapacity.GrowCapacity gor cap mn 0 false = Ok c /\ mn <= c /\ cap < c.
+Proof. exact gen_grow_capacity_spec. Qed.
+Print Assumptions C08_gen_grow_capacity_spec.
+
+(* the REAL pvMakeState / pvGetMemPoolIndex / pvGetFastCount / pvGetFastMemPoolIndex are the byte functions of the model *)
+Theorem C08_gen_make_state_refines :
+  forall p c : Z, 0 <= p < 2 ^ 59 -> Gen_ArrayBucket.pvMakeState p c = make_state p c.
+Proof. exact gen_make_state_refines. Qed.
+Print Assumptions C08_gen_make_state_refines.
+
+Theorem C08_gen_mem_pool_index_refines :
+  forall (load : Z -> Z) (ptr : Z), ptr <> 0 -> Gen_ArrayBucket.pvGetMemPoolIndex load ptr = Ok (pool_of (load ptr)).
+Proof. exact gen_mem_pool_index_refines. Qed.
+Print Assumptions C08_gen_mem_pool_index_refines.
+
+Theorem C08_gen_fast_count_refines :
+  forall (load : Z -> Z) (ptr : Z), 0 < pool_of (load ptr) ->
+  Gen_ArrayBucket_cnt.pvGetFastCount load (fun q => pool_of (load q)) ptr = Ok (fcount_of (load ptr)).
+Proof. exact gen_fast_count_refines. Qed.
+Print Assumptions C08_gen_fast_count_refines.
+
+Theorem C08_gen_fast_mem_pool_index :
+  forall M count : Z,
+  Gen_ArrayBucket.pvGetFastMemPoolIndex M count = if (0 <? count) && (count <=? M) then Ok count else Stuck.
+Proof. exact gen_fast_mem_pool_index. Qed.
+Print Assumptions C08_gen_fast_mem_pool_index.
+
+(* the model's null -> pool 1 step and the copy constructor's pooled case are literally compositions of the generated functions *)
+Theorem C08_add_back_null_via_generated :
+  forall M : Z, 0 < M ->
+  add_back M RNull =
+  match Gen_ArrayBucket.pvGetFastMemPoolIndex M 1 with
+  | Ok idx => RFast (Gen_ArrayBucket.pvMakeState idx 1)
+  | _ => RStuck
+  end.
+Proof. exact add_back_null_via_generated. Qed.
+Print Assumptions C08_add_back_null_via_generated.
+
+Theorem C08_copy_repr_via_generated :
+  forall M n : Z, 0 < n <= M -> M < 16 ->
+  copy_repr M n =
+  match Gen_ArrayBucket.pvGetFastMemPoolIndex M n with
+  | Ok idx => RFast (Gen_ArrayBucket.pvMakeState idx n)
+  | _ => RStuck
+  end.
+Proof. exact copy_repr_via_generated. Qed.
+Print Assumptions C08_copy_repr_via_generated.
+
+(* same code: the string-valued, maxFastCount 2, MemPoolParams<3,1> instantiation translates to the very same Gallina *)
+Theorem C08_same_code_array_bucket_instantiations :
+  Gen_ArrayBucket_s.pvMakeState = Gen_ArrayBucket.pvMakeState /\
+  Gen_ArrayBucket_s.pvGetFastMemPoolIndex = Gen_ArrayBucket.pvGetFastMemPoolIndex /\
+  Gen_ArrayBucket_s.pvGetMemPoolIndex = Gen_ArrayBucket.pvGetMemPoolIndex.
+Proof. exact same_code_array_bucket_instantiations. Qed.
+Print Assumptions C08_same_code_array_bucket_instantiations.
+
+(* ------------------------------------------------------------------ round 4: FRAME for every member of ArrayBucket that writes mPtr *)
+(* two buckets; AddBackCrt / RemoveBack (also failing), Remove(i), RemoveAll / Clear, copy constructor, move constructor,
+   move assignment, Swap: both buckets stay in a legal representation whose stored count is the content length *)
+Theorem C08_arraybucket_frame_every_member :
+  forall (M : Z) (s : ab * ab) (o : ab2op), 0 < M < 16 -> ab_inv M (fst s) -> ab_inv M (snd s) ->
+  ab_inv M (fst (ab2_step M s o)) /\ ab_inv M (snd (ab2_step M s o)).
+Proof. exact ab2_frame. Qed.
+Print Assumptions C08_arraybucket_frame_every_member.
+
+Theorem C08_arraybucket_frame_all_histories :
+  forall (M : Z) (ops : list ab2op), 0 < M < 16 ->
+  ab_inv M (fst (ab2_run M ops)) /\ ab_inv M (snd (ab2_run M ops)).
+Proof. exact ab2_frame_all_histories. Qed.
+Print Assumptions C08_arraybucket_frame_all_histories.
+
+(* content under those members: moves move, copies copy, Swap swaps, a throwing AddBackCrt adds nothing (and nothing else) *)
+Theorem C08_arraybucket_content_every_member :
+  forall (M : Z) (s : ab * ab) (o : ab2op), ab_inv M (fst s) -> ab_inv M (snd s) ->
+  let s' := ab2_step M s o in
+  match o with
+  | A2AddF first v fs =>
+      let a := if first then fst s else snd s in
+      let a' := if first then fst s' else snd s' in
+      (snd a' = snd a \/ snd a' = snd a ++ [v]) /\ (if first then snd s' = snd s else fst s' = fst s)
+  | _ => (snd (fst s'), snd (snd s')) =
+         ref2_step (snd (fst s), snd (snd s)) (is_null (fst (fst s)), is_null (fst (snd s))) o
+  end.
+Proof. exact ab2_content. Qed.
+Print Assumptions C08_arraybucket_content_every_member.
